@@ -144,6 +144,22 @@ func determinismMem(r *Run) {
 			r.Probe("inputs-beyond-the-slice-limit")
 		}
 	}
+	if !par1Set && t.Bool(1, 60, "sparse-slices") {
+		// slice sizes of 8-16 KiB that are not a multiple of 16, sparse
+		// content (zeros up to the last bytes of each slice): where
+		// per-goroutine stripes end and what they contain then matters
+		w.S = []int{8196, 12292, 16388}[t.Draw(3, "sparse-S")]
+		for i := range w.Files {
+			size := w.S*(1+t.Draw(2, "sparse-slices")) - t.Draw(2, "sparse-short")*t.Draw(w.S/2, "sparse-tail")
+			data := expandContent(ckZeroLed, t.Draw64(0, "sparse-seed"), size, w.S)
+			w.Files[i].Data = data
+			base.Put(w.Path(i), data)
+		}
+		if w.R > 4 {
+			w.R = 1 + t.Draw(4, "sparse-R")
+		}
+		r.Probe("sparse-slices-not-multiple-of-16")
+	}
 	if !par1Set && t.Bool(1, 120, "big-volumes") {
 		// recovery volumes of several MiB holding several blocks each
 		// (writers tend to treat big files differently: buffering,
